@@ -419,30 +419,47 @@ def c09_check(w, ir_label):
 # operations
 
 
-def _open_patch(w):
-    """Route gtirb.ir's use of open() to the simulated disk."""
-    w.g.ir.open = w.disk.open
+def _real_path(w, path):
+    """The path API is exercised against REAL files in a directory the harness owns (under the
+    build directory, removed with it): whatever file API the code uses (open, os.open, pathlib)
+    reaches it, and what an earlier save left under that name is really there."""
+    import os
+
+    d = getattr(w, "realdir", None)
+    if d is None:
+        base = os.environ.get("GSIM_BUILD_DIR") or os.path.join(os.path.dirname(os.path.dirname(os.path.abspath(__file__))), ".build")
+        w.next_id["realdir"] += 1
+        d = w.realdir = os.path.join(base, "disk", "%d-%d" % (os.getpid(), id(w)))
+        os.makedirs(d, exist_ok=True)
+    return os.path.join(d, path)
 
 
-def _open_unpatch(w):
-    try:
-        del w.g.ir.open
-    except AttributeError:
-        pass
+def _sync_to_real(w, path):
+    import os
+
+    rp = _real_path(w, path)
+    data = w.disk.files.get(path)
+    if data is None:
+        if os.path.exists(rp):
+            os.remove(rp)
+    else:
+        with open(rp, "wb") as f:
+            f.write(data)
+    return rp
 
 
 def do_save(w, I, path, flavor):
     if flavor == "path":
-        _open_patch(w)
-        try:
-            if path.endswith("p"):
-                import pathlib
+        rp = _sync_to_real(w, path)  # an older (possibly longer) file of that name is on the disk
+        if path.endswith("p"):
+            import pathlib
 
-                I.save_protobuf(pathlib.PurePosixPath(path))
-            else:
-                I.save_protobuf(path)
-        finally:
-            _open_unpatch(w)
+            I.save_protobuf(pathlib.Path(rp))
+        else:
+            I.save_protobuf(rp)
+        with open(rp, "rb") as f:
+            w.disk.files[path] = f.read()
+        w.disk.chunks[path] = None
     else:
         f = w.disk.open(path, "wb")
         try:
@@ -453,11 +470,12 @@ def do_save(w, I, path, flavor):
 
 def do_load(w, path, flavor):
     if flavor == "path":
-        _open_patch(w)
-        try:
-            return w.g.IR.load_protobuf(path)
-        finally:
-            _open_unpatch(w)
+        rp = _sync_to_real(w, path)
+        if path.endswith("p"):
+            import pathlib
+
+            return w.g.IR.load_protobuf(pathlib.Path(rp))
+        return w.g.IR.load_protobuf(rp)
     f = w.disk.open(path, "rb")
     try:
         return w.g.IR.load_protobuf_file(f)
@@ -505,7 +523,10 @@ class Save(Op):
         w.counters["probe:saves"] += 1
         w.counters["probe:saved_nodes_total"] += len(snap["order"])
         w.counters["probe:saved_refs_total"] += _count_refs(snap)
-        msg = parse_file(w, data)
+        try:
+            msg = parse_file(w, data)
+        except Exception as e:  # noqa
+            w.violate(("C01", "C02", "C19"), "save:unparsable", "the %d bytes save left at %s are not a GTIRB file: %s: %s" % (len(data), op["path"], type(e).__name__, e))
         if w.owns(("C02",)):
             check_header(w, data, ("C02",))
             check_message(w, msg, snap)
